@@ -412,7 +412,9 @@ func (ls *LState) DoFile(path string) error {
 	if fn, err := ls.LoadFile(path); err != nil {
 		return err
 	} else {
-		ls.Push(fn)
+		if err := ls.pushProtected(fn); err != nil {
+			return err
+		}
 		return ls.PCall(0, MultRet, nil)
 	}
 }
@@ -421,7 +423,9 @@ func (ls *LState) DoString(source string) error {
 	if fn, err := ls.LoadString(source); err != nil {
 		return err
 	} else {
-		ls.Push(fn)
+		if err := ls.pushProtected(fn); err != nil {
+			return err
+		}
 		return ls.PCall(0, MultRet, nil)
 	}
 }
